@@ -742,6 +742,22 @@ func TestC07(t *testing.T) {
 					if mt := m.MsgType(); mt != 1 && mt != 4 && mt != 7 {
 						return "c07-dhcp-client-type@dhcp", fmt.Sprintf("client frame of type %d", mt)
 					}
+					// the forged DECLINE / RELEASE must be what RFC 2131 (table 5) says a client sends, or the real server ignores it:
+					// DECLINE: ciaddr 0, requested address and server identifier present; RELEASE: ciaddr = the address given up,
+					// server identifier present; neither carries yiaddr / siaddr / giaddr
+					if mt := m.MsgType(); mt == 4 || mt == 7 {
+						zero := [4]byte{}
+						_, has50 := m.Opt(50)
+						_, has54 := m.Opt(54)
+						switch {
+						case m.YIAddr != zero || m.SIAddr != zero || m.GIAddr != zero:
+							return "c07-dhcp-forged-fields@dhcp", fmt.Sprintf("forged message of type %d carries yiaddr %v siaddr %v giaddr %v", mt, m.YIAddr, m.SIAddr, m.GIAddr)
+						case mt == 4 && (m.CIAddr != zero || !has50 || !has54):
+							return "c07-dhcp-forged-decline@dhcp", fmt.Sprintf("forged DECLINE: ciaddr %v, requested address option present=%v, server identifier present=%v", m.CIAddr, has50, has54)
+						case mt == 7 && (m.CIAddr == zero || !has54):
+							return "c07-dhcp-forged-release@dhcp", fmt.Sprintf("forged RELEASE: ciaddr %v, server identifier present=%v (options %v)", m.CIAddr, has54, m.Options)
+						}
+					}
 				default:
 					return "c07-dhcp-ports@dhcp", fmt.Sprintf("ports %d->%d", in.udp.Sport, in.udp.Dport)
 				}
